@@ -387,6 +387,7 @@ def run(ctx):
         bus_forwarding(ctx, rng, 40 if quick else 400)
         hostile_names_through_bus(ctx)
         wrong_typed_header_fields(ctx)
+        deep_header_values(ctx)
         first_use_poisoning(ctx, rng)
         history_independence(ctx, rng)
         scaling_probe(ctx)
@@ -905,6 +906,48 @@ def wrong_typed_header_fields(ctx):
                         ctx.report('bystander-dropped', 'a message with a wrong-typed %s header field cost ANOTHER connection '
                                    'its link to the bus' % names[code], w, case)
                         return
+
+
+def deep_header_values(ctx):
+    """A header field whose value is a deeply nested (legal) variant - single-element arrays nested 8 to 28 deep - sent
+    through the built-in bus, which decodes the message and writes its header out again: the work stays in proportion to
+    the length of the message (a few hundred bytes)."""
+    from harness import busnet
+    net = busnet.Net()
+    victim = net.raw_client()
+    attacker = net.raw_client()
+    names = {2: 'interface', 3: 'member', 4: 'error_name', 6: 'destination', 7: 'sender', 1: 'path'}
+    base_steps = {}
+    for code in (2, 3, 4, 6, 7, 1):
+        for depth in (1, 8, 16, 22, 28):
+            if attacker.server.lost or attacker.closed_by_bus:
+                net.clients.remove(attacker)
+                attacker = net.raw_client()
+            val = 7
+            for _ in range(depth):
+                val = [val]
+            mtype = RM.ERROR if code == 4 else RM.SIGNAL
+            fields = {'destination': victim.unique}
+            if mtype == RM.SIGNAL:
+                fields.update(path='/a', member='M', interface='a.b')
+            else:
+                fields.update(reply_serial=9, error_name='a.b.E')
+            fields.pop(names[code], None)
+            raw = RM.build(mtype, 70 + depth, fields, '', [], True, extra_fields=[(code, Variant('a' * depth + 'i', val))])
+            out, val_, n = METER.run(3000000, attacker.send_raw, raw)
+            victim.take()
+            ctx.count('evaluations')
+            ctx.count('deep_header_values_sent')
+            base_steps.setdefault(code, n)
+            case = {'kind': 'deep-header-value', 'field': code, 'depth': depth}
+            w = {'field': names[code], 'depth': depth, 'bytes': len(raw), 'steps': n, 'steps_at_depth_1': base_steps[code]}
+            if out == 'budget' or n > 40 * (base_steps[code] + 200) + 400 * depth * depth:
+                ctx.report('runaway-on-pass-on', 'a %d-byte message whose %s header field is an array nested %d deep cost the '
+                           'bus %s steps (%d at depth 1)' % (len(raw), names[code], depth,
+                                                             'more than 3000000' if out == 'budget' else n, base_steps[code]),
+                           w, case)
+                return
+    ctx.note('deep_header_values', {'steps_at_depth_1': base_steps})
 
 
 def typed_corpus():
